@@ -283,7 +283,7 @@ class OMachine(Machine):
             elif p.get('init') is not None:
                 env[p['id']] = self.ev(p['init'])
             else:
-                raise Unsupported('missing argument %d of %s' % (i, a.get('q') or '?'))
+                raise Unsupported('missing argument %d of %s (%s:%s)' % (i, a.get('fq') or a.get('name') or '?', a.get('file', '').split('/')[-1], a.get('line')))
         w.depth = getattr(w, 'depth', 0) + 1
         w.calls = getattr(w, 'calls', 0) + 1
         if w.depth > 80 or w.calls > getattr(w, 'max_calls', 20000):
